@@ -30,6 +30,7 @@ type Engine struct {
 	impNames  map[string]map[string]string
 	cellCache map[*ssa.Function]map[string]*cellInfo
 	globLen   map[*ssa.Global]int64
+	recorded  map[string][]string // recorded variable names per function (-locals-in), for rename tolerance at call sites
 }
 
 // Term is an SMT term with its sort and (when known) Go type.
